@@ -84,9 +84,34 @@ def runHistJson {B} (o : BackendOps Int B) (ob : Obs B) (n0 : Nat) (evs : List J
     | .error e => throw s!"init: {errStr e}"
   let mut s := s0
   let mut out : Array Json := #[]
+  let mut lastRun : Option Prog := none
   for j in evs do
     let e ← getStr j "e"
-    if e == "fresh" then
+    if e == "alien" then
+      -- replace the program under construction by `Program(P)` where `P = Program(n)` with `Del` of `dels` was built
+      -- independently (never run): same kind of object as `Program(prev)`, another creation / deletion history
+      let r := match Prog.fresh (← getNat j "n") with
+        | .error er => (.error er : SFV.Reg.R Prog)
+        | .ok p0 =>
+          let dels := (getNatListD j "dels")
+          if dels.isEmpty then .ok p0.lock.child
+          else match p0.delOp (dels.map fun i => Ref.int (Int.ofNat i)) with
+            | .error er => .error er
+            | .ok p1 => .ok p1.lock.child
+      match r with
+      | .ok p => s := { s with prog := p }; out := out.push (Json.mkObj (("r", Json.str "ok") :: progJson p))
+      | .error er => out := out.push (Json.mkObj (("r", Json.str (errStr er)) :: progJson s.prog))
+    else if e == "rerun" then
+      -- `eng.run(last)` with the program object that was run last; the program under construction stays
+      match lastRun with
+      | none => out := out.push (Json.mkObj [("r", Json.str "none")])
+      | some lp =>
+        match engineRun o { s with prog := lp } with
+        | .error er => out := out.push (Json.mkObj [("r", Json.str (errStr er))])
+        | .ok s' =>
+          s := { s with prev := s'.prev, be := s'.be }
+          out := out.push (Json.mkObj ((("r", Json.str "ok") :: progJson s.prog) ++ beJson o ob s.be))
+    else if e == "fresh" then
       -- replace the program under construction by a fresh `Program(n)`
       match Prog.fresh (← getNat j "n") with
       | .ok p => s := { s with prog := p }; out := out.push (Json.mkObj (("r", Json.str "ok") :: progJson p))
@@ -118,6 +143,7 @@ def runHistJson {B} (o : BackendOps Int B) (ob : Obs B) (n0 : Nat) (evs : List J
         | _ => throw s!"unknown event {e}"
       let ranReg := s.prog.register
       let ranCircuit := s.prog.circuit
+      let ranProg := s.prog
       match step o s ev with
       | .error er =>
         out := out.push (Json.mkObj (("r", Json.str (errStr er)) :: progJson s.prog))
@@ -128,6 +154,7 @@ def runHistJson {B} (o : BackendOps Int B) (ob : Obs B) (n0 : Nat) (evs : List J
           -- the indices handed out: the last `n` created
           let n ← getNat j "n"
           fields := fields ++ [("new", natList (List.range' (s'.prog.regRefs.length - n) n))]
+        if e == "end" then lastRun := some ranProg
         if e == "end" || e == "reset" then
           fields := fields ++ beJson o ob s'.be ++ [("ranReg", natList ranReg), ("skeys", natList (samplesKeys ranCircuit))]
           let probes := (getArr j "probe").toOption.getD []
